@@ -200,3 +200,78 @@ def zip_tasks(tier, role):
                               (c['nl'], c['nr'], c['iters'], c['max_len']), role=role,
                        opts={'covers': ['paired']}, budget=300))
     return ts
+
+
+# ------------------------------------------------------------------------------------ cached side input (C11)
+
+def cache_harness(w, nl, nr, rounds, max_len, cached='right', cut='each'):
+    """binary Start inside a loop body: the `cached` side comes from outside the loop (delivered once), the other
+    side is the loop's stream (`rounds` iterations)"""
+    multiple = w.impls[(None, 'Start')]['multiple'][0]
+    setup = w.impls[('Operator', 'Start')]['setup'][0]
+    nxt = w.impls[('Operator', 'Start')]['next'][0]
+    hlib.check_se_table(w)
+
+    def h(ex):
+        loop_side, out_side = (1, 2) if cached == 'right' else (2, 1)
+        n_loop, n_out = (nl, nr) if cached == 'right' else (nr, nl)
+        s_loop = gen_side(ex, n_loop, rounds, max_len, 'I', loop_side, 'loop')
+        s_out = gen_side(ex, n_out, 1, max_len, 'I', out_side, 'side')
+        sl, sr = (s_loop, s_out) if cached == 'right' else (s_out, s_loop)
+        st = ex.call_function(multiple, [Int('u64', 1), Int('u64', 2), cached == 'left', cached == 'right', none()])
+        holder = [st]
+        net = binary_setup(ex, w, holder, setup, nl, nr, sl, sr, cut)
+        total = sum(len(s) for s in sl + sr)
+        out = hlib.drive(ex, nxt, holder, (rounds + 1) * total + 8)
+        sx = lambda: {'cached': cached, 'left': [[repr(e) for e in s] for s in sl],
+                      'right': [[repr(e) for e in s] for s in sr],
+                      'arrival': [(ev[1], ev[2], len(ev[3])) for ev in net.log if ev[0] == 'batch'],
+                      'output': [repr(e) for e in out]}
+        hlib.check_grammar(ex, out, rounds, 'binary Start output')
+        outs = hlib.split_iterations(out)
+        side_ids = sorted(e.fields[0].v for s in s_out for e in s if e.variant == 'Item')
+        lv, rv = ('Left', 'Right')
+        loop_var, side_var = (lv, rv) if cached == 'right' else (rv, lv)
+        for k in range(rounds):
+            its = outs[k]
+            got_loop = [e.fields[0].fields[0].v for e in its if e.variant == 'Item' and e.fields[0].variant == loop_var]
+            got_side = [e.fields[0].fields[0].v for e in its if e.variant == 'Item' and e.fields[0].variant == side_var]
+            want_loop = sorted(e.fields[0].v for s in s_loop for e in hlib.split_iterations(s)[k] if e.variant == 'Item')
+            if sorted(got_loop) != want_loop:
+                raise Violation('round %d: the loop side is not delivered exactly once' % k, hlib._wit(ex), sx())
+            if sorted(got_side) != side_ids:
+                raise Violation('round %d does not see the outside (cached) input completely and exactly once '
+                                '(got %s, expected %s)' % (k, sorted(got_side), side_ids), hlib._wit(ex), sx())
+            # per-producer order inside the side input is the same in every round
+            for s in s_out:
+                ids = [e.fields[0].v for e in s if e.variant == 'Item']
+                if [x for x in got_side if x in ids] != ids:
+                    raise Violation('round %d sees the cached input of a producer in a different order' % k,
+                                    hlib._wit(ex), sx())
+            ends = [e.fields[0].variant for e in its if e.variant == 'Item' and e.fields[0].variant in ('LeftEnd', 'RightEnd')]
+            if sorted(ends) != ['LeftEnd', 'RightEnd']:
+                raise Violation('round %d: end-of-side markers %s (one LeftEnd and one RightEnd expected)' % (k, ends),
+                                hlib._wit(ex), sx())
+            if k >= 1 and side_ids:
+                hlib.cover(ex, 'replayed')
+        return sx()
+    return h
+
+
+def cache_tasks(tier, role):
+    cfgs = [dict(nl=1, nr=1, rounds=3, max_len=[1, 1, 1], cached='right'),
+            dict(nl=1, nr=2, rounds=2, max_len=[1, 1], cached='right'),
+            dict(nl=1, nr=1, rounds=2, max_len=[2, 1], cached='left')]
+    if tier != 'quick':
+        cfgs += [dict(nl=2, nr=2, rounds=2, max_len=[2, 1], cached='right'),
+                 dict(nl=1, nr=1, rounds=3, max_len=[2, 2, 1], cached='left')]
+    ts = []
+    for c in cfgs:
+        nm = 'cache_%s_%dx%d_r%d' % (c['cached'], c['nl'], c['nr'], c['rounds'])
+        ts.append(Task(nm, 'cache_harness', c,
+                       bounds='Start<BinaryStartReceiver> with the %s side cached: %d left / %d right producers, %d rounds '
+                              'of the loop side x <=%s items, outside side delivered once (<=%s items per producer), one '
+                              'element per batch, every arrival interleaving' %
+                              (c['cached'], c['nl'], c['nr'], c['rounds'], c['max_len'], c['max_len'][0]), role=role,
+                       opts={'covers': ['replayed']}, budget=300))
+    return ts
